@@ -1678,6 +1678,107 @@ theorem rootVisits_files (cfg : Cfg) (fs : FS) (root : APath) :
   funext v
   exact file?_eq_visitEvent v
 
+/-- what a visit records is what the file system holds -/
+def VisitData (fs : FS) : Visit → Prop
+  | .file f _ _ loads contents => ∃ text, fs.get f = some (.idl text) ∧ parseText text = some ⟨loads, contents⟩
+  | .extern p defs => fs.get p = some (.ext defs)
+  | .undecodable p pos => fs.get p = some (.notText pos)
+  | .broken _ => True
+
+theorem visitStep_data (cfg : Cfg) (fs : FS) (rec : List APath → APath → APath → VisitAcc → VisitAcc)
+    (hrec : ∀ st p s a, (∀ v ∈ a.2, VisitData fs v) → ∀ v ∈ (rec st p s a).2, VisitData fs v)
+    (stack : List APath) (spelled : APath) (acc : VisitAcc) (l : LoadAt) (ha : ∀ v ∈ acc.2, VisitData fs v) :
+    ∀ v ∈ (visitStep cfg fs rec stack spelled acc l).2, VisitData fs v := by
+  unfold visitStep
+  split
+  · exact ha
+  · split
+    · exact ha
+    · split
+      · split
+        · exact ha
+        · exact hrec _ _ _ _ ha
+      · split
+        · rename_i defs hg
+          intro v hv
+          simp only [List.mem_append, List.mem_singleton] at hv
+          rcases hv with hv | hv
+          · exact ha v hv
+          · subst hv; exact hg
+        · exact ha
+
+theorem foldl_visitStep_data (cfg : Cfg) (fs : FS) (rec : List APath → APath → APath → VisitAcc → VisitAcc)
+    (hrec : ∀ st p s a, (∀ v ∈ a.2, VisitData fs v) → ∀ v ∈ (rec st p s a).2, VisitData fs v)
+    (stack : List APath) (spelled : APath) (loads : List LoadAt) (acc : VisitAcc) (ha : ∀ v ∈ acc.2, VisitData fs v) :
+    ∀ v ∈ (loads.foldl (visitStep cfg fs rec stack spelled) acc).2, VisitData fs v := by
+  induction loads generalizing acc with
+  | nil => exact ha
+  | cons l ls ih =>
+    simp only [List.foldl_cons]
+    exact ih _ (visitStep_data cfg fs rec hrec stack spelled acc l ha)
+
+theorem visitOrder_data (cfg : Cfg) (fs : FS) (fuel : Nat) (stack : List APath) (file spelled : APath) (acc : VisitAcc)
+    (ha : ∀ v ∈ acc.2, VisitData fs v) : ∀ v ∈ (visitOrder cfg fs fuel stack file spelled acc).2, VisitData fs v := by
+  have hadd : ∀ (x : Visit), VisitData fs x → ∀ (l : List Visit), (∀ v ∈ l, VisitData fs v) → ∀ v ∈ l ++ [x], VisitData fs v := by
+    intro x hx l hl v hv
+    simp only [List.mem_append, List.mem_singleton] at hv
+    rcases hv with hv | hv
+    · exact hl v hv
+    · subst hv; exact hx
+  induction fuel generalizing stack file spelled acc with
+  | zero => exact hadd (.broken file) trivial _ ha
+  | succ n ih =>
+    simp only [visitOrder]
+    cases hf : fs.get file with
+    | none => exact hadd (.broken file) trivial _ ha
+    | some fc =>
+      cases fc with
+      | idl text =>
+        simp only []
+        cases hp : parseText text with
+        | none => exact hadd (.broken file) trivial _ ha
+        | some f =>
+          exact hadd (.file file spelled stack f.loads f.contents) ⟨text, hf, hp⟩ _
+            (foldl_visitStep_data cfg fs _ (fun st p s a h => ih st p s a h) _ spelled f.loads acc ha)
+      | ext d => exact hadd (.broken file) trivial _ ha
+      | badExt => exact hadd (.broken file) trivial _ ha
+      | notText pos => exact hadd (.undecodable file pos) hf _ ha
+
+/-- every visit of the import tree records what the file system holds: an IDL file's parsed load lines and contents,
+    an external type file's definitions, the position of the first undecodable byte -/
+theorem rootVisits_data (cfg : Cfg) (fs : FS) (root : APath) : ∀ v ∈ rootVisits cfg fs root, VisitData fs v :=
+  visitOrder_data cfg fs _ _ _ _ _ (fun _ h => by cases h)
+
+theorem visitDefs_eq_evDefs (fs : FS) (v : Visit) (hv : VisitData fs v) :
+    visitDefs v = (match visitEvent v with | some e => evDefs fs e | none => []) := by
+  cases v with
+  | file f s A loads contents =>
+    obtain ⟨text, hf, hp⟩ := hv
+    simp [visitDefs, visitEvent, evDefs, fileDefs, hf, hp]
+  | extern p defs =>
+    have hv' : fs.get p = some (.ext defs) := hv
+    simp [visitDefs, visitEvent, evDefs, hv']
+  | undecodable p pos => rfl
+  | broken p => rfl
+
+theorem flatMap_visitDefs_eq (fs : FS) (vs : List Visit) (h : ∀ v ∈ vs, VisitData fs v) :
+    vs.flatMap visitDefs = (vs.filterMap visitEvent).flatMap (evDefs fs) := by
+  induction vs with
+  | nil => rfl
+  | cons v vs ih =>
+    rw [List.flatMap_cons, ih (fun v' hv' => h v' (List.mem_cons_of_mem _ hv')), visitDefs_eq_evDefs fs v (h v (by simp)),
+      List.filterMap_cons]
+    cases visitEvent v <;> simp
+
+/-- **The names registered in a run are the names of the registration events in event order**: `programKeys` of the
+    import tree is the built-ins' names followed by the names of `evDefs` of every event of `rootEvents`
+    (`Front/Order.lean`) — the hypothesis "no two registrations collide" of `front_eq_programDiags` in terms of the
+    order `Props/C16Order.lean` is about. -/
+theorem programKeys_rootEvents (cfg : Cfg) (fs : FS) (builtins : Registry) (root : APath) :
+    programKeys builtins (rootVisits cfg fs root)
+      = (builtins ++ (rootEvents cfg fs root).flatMap (evDefs fs)).map (·.key) := by
+  rw [programKeys, flatMap_visitDefs_eq fs _ (rootVisits_data cfg fs root), rootVisits_events]
+
 instance (cfg : Cfg) (v : Visit) : Decidable (VisitOk cfg v) := by
   cases v <;> unfold VisitOk <;> infer_instance
 
